@@ -16,7 +16,7 @@ BFS_CLAUSES = ('eqref.',)
 
 
 # every query on names no file can have (embedded NUL): exists/is_* say False, open() raises ValueError
-NUL_NAMES = dict(family='observer', size=1, level=0, cfg='K0', t0=['empty', 'dir_d_j'], mut='none',
+NUL_NAMES = dict(family='observer', size=1, level=0, cfg='K0', t0=['empty', 'dir_d_j'], mut='none', twin=True,
                  kw=dict(paths=['n\0', 'd/n\0m']))
 
 
@@ -25,32 +25,32 @@ def spaces(tier):
     small = dict(paths=['a', 'd', 'd/x', 'd/y', 'd/e/z'], bf_modes=['ok', 'rb', 'ra'], sb_modes=['ok', 'rb'])
     if tier == 'quick':
         return [
-            dict(family='observer', size=1, level=0, cfg='K0', t0=['empty', 'full', 'dir_d_j', 'file_d_e'], mut='all'),
-            dict(family='chain3', size=3, level=0, cfg='K0', t0=['empty'], mut='outputs'),
+            dict(family='observer', size=1, level=0, cfg='K0', t0=['empty', 'full', 'dir_d_j', 'file_d_e'], mut='all', twin=True),
+            dict(family='chain3', size=3, level=0, cfg='K0', t0=['empty'], mut='outputs', twin=True),
             dict(family='chain3', size=3, level=1, cfg='K0', t0=['empty'], mut='none'),
-            dict(family='if', size=2, level=0, cfg='K0', t0=['empty', 'file_i', 'dir_d_j'], mut='all'),
+            dict(family='if', size=2, level=0, cfg='K0', t0=['empty', 'file_i', 'dir_d_j'], mut='all', twin=True),
             dict(family='pairs', size=1, level=1, cfg='K0', t0=['empty'], mut='none'),
             # the cache file in its own directory; outputs inside that directory and AT that directory
-            dict(size=2, level=1, cfg='K1', t0=['empty'], mut='none',
+            dict(size=2, level=1, cfg='K1', t0=['empty'], mut='none', twin=True,
                  kw=dict(paths=['a', 'k', 'k/x'], bf_modes=['ok', 'rb', 'ra'], sb_modes=['ok'])),
             NUL_NAMES,
-            dict(size=1, level=0, cfg='K0', t0=['empty', 'full', 'dir_d_j', 'file_d'], mut='all'),
+            dict(size=1, level=0, cfg='K0', t0=['empty', 'full', 'dir_d_j', 'file_d'], mut='all', twin=True),
             dict(size=1, level=1, cfg='K0', t0=['empty', 'full'], mut='all'),
-            dict(size=1, level=2, cfg='K1', t0=['empty', 'dir_d_e'], mut='rel'),
+            dict(size=1, level=2, cfg='K1', t0=['empty', 'dir_d_e'], mut='rel', twin=True),
             dict(size=2, level=0, cfg='K0', t0=['empty', 'dir_d_j'], mut='rel',
                  kw=dict(paths=['a', 'd', 'd/x', 'd/y', 'd/e/z'], bf_modes=['ok', 'rb', 'ra'], sb_modes=['ok', 'rb'])),
             dict(size=2, level=1, cfg='K0', t0=['empty'], mut='rel',
                  kw=dict(paths=['a', 'd', 'd/x', 'd/y', 'd/e/z'], bf_modes=['ok', 'rb', 'ra'], sb_modes=['ok', 'rb'])),
         ]
     return [NUL_NAMES] + [
-        dict(family='observer', size=1, level=l, cfg=c, t0=list(gen.T0S), mut='all')
+        dict(family='observer', size=1, level=l, cfg=c, t0=list(gen.T0S), mut='all', twin=True)
         for l in (0, 1) for c in ('K0', 'K1')
     ] + [
-        dict(family='if', size=2, level=l, cfg='K0', t0=list(gen.T0S), mut='all') for l in (0, 1)
+        dict(family='if', size=2, level=l, cfg='K0', t0=list(gen.T0S), mut='all', twin=True) for l in (0, 1)
     ] + [
         dict(family='pairs', size=1, level=l, cfg='K0', t0=list(gen.T0S), mut='none') for l in (0, 1)
     ] + [
-        dict(size=1, level=l, cfg=c, t0=list(gen.T0S), mut='all')
+        dict(size=1, level=l, cfg=c, t0=list(gen.T0S), mut='all', twin=True)
         for l in (0, 1, 2, 3) for c in ('K0', 'K1')
     ] + [
         dict(size=2, level=l, cfg='K0', t0=['empty', 'dir_d_j', 'full', 'file_d'], mut='rel')
@@ -146,6 +146,7 @@ def work(ctx, task):
             muts = [None] + relevant_mutations(prog, full)
         for t0 in sp['t0']:
             world.start()
+            world.twin_on = bool(sp.get('twin'))
             for m in gen.T0S[t0]:
                 world.mutate(m)
             r1 = world.build(prog)
@@ -159,6 +160,9 @@ def work(ctx, task):
                 if m is not None and not world.mutate(m):
                     acc.count('mutation_not_applicable')
                     continue
+                # a content change that keeps size and mtime is documented to go unnoticed by METADATA
+                # comparisons; there the from-scratch twin legitimately differs (C13 owns that clause)
+                world.twin_on = bool(sp.get('twin')) and not (m is not None and m[0] == 'flip')
                 acc.count('histories')
                 rs = []
                 for step in ('build', 'build', 'clean', 'clean'):
@@ -171,6 +175,7 @@ def work(ctx, task):
                     acc.samples.append({'history': world.spec(),
                                         'results': [r.real[0] for r in [r1] + rs]})
             world.drop(h)
+    acc.count('builds_compared_with_the_from_scratch_twin', getattr(world, 'twin_runs', 0))
     return acc.result(world, capped)
 
 
